@@ -265,20 +265,26 @@ Section AsmE.
       let L := if Nat.eqb t 0 then periodicity A L x y else L in
       if Nat.eqb t 1 then antiperiodicity A L x y else L) (pbcs P) L.
 
+  (* one conductor's row (ESolver::AnalyzeProblem, "construct row for each conductor"); k = nn + i *)
+  Definition cond_rowsum (L : lin (F:=F)) (k : nat) (K0 : F) : F :=
+    fold_left (fun K j => if Nat.eqb j k then K else K +. mget A (lM L) k j) (seq 0 (ln L)) K0.
+
+  Definition cond_row_step (P : eprob) (nn : nat) (cK cB : list F) (L : lin (F:=F)) (ic : nat * ecirc) : lin :=
+    let '(i, cc) := ic in
+    let k := nn + i in
+    let L :=
+      if Nat.eqb (ctype cc) 1 then
+        let K := mget A (lM L) 0 0 in
+        lsetb (lput L K k k) k (K *. cV cc)
+      else L in
+    if Nat.eqb (ctype cc) 0 then
+      let K := cond_rowsum L k (vget A cK i) in
+      if aeqb A K zero then lput L (mget A (lM L) 0 0) k k
+      else lsetb (lput L (aneg A K) k k) k (adec A 1 9 *. cconst P *. cq cc +. vget A cB i)
+    else L.
+
   Definition conductor_rows (P : eprob) (nn : nat) (cK cB : list F) (L : lin (F:=F)) : lin :=
-    fold_left (fun L ic =>
-      let '(i, cc) := ic in
-      let k := nn + i in
-      let L :=
-        if Nat.eqb (ctype cc) 1 then
-          let K := mget A (lM L) 0 0 in
-          lsetb (lput L K k k) k (K *. cV cc)
-        else L in
-      if Nat.eqb (ctype cc) 0 then
-        let K := fold_left (fun K j => if Nat.eqb j k then K else K +. mget A (lM L) k j) (seq 0 (ln L)) (vget A cK i) in
-        if aeqb A K zero then lput L (mget A (lM L) 0 0) k k
-        else lsetb (lput L (aneg A K) k k) k (adec A 1 9 *. cconst P *. cq cc +. vget A cB i)
-      else L) (combine (seq 0 (length (circs P))) (circs P)) L.
+    fold_left (cond_row_step P nn cK cB) (combine (seq 0 (length (circs P))) (circs P)) L.
 
   (* the assembled system, the prescribed-value vector and the Q flags *)
   Definition asmE (P : eprob) (bw : nat) (prec : F) : lin (F:=F) * list F * list Z :=
